@@ -6,7 +6,7 @@ namespace rs {
 static const char* const kNames[K_COUNT] = { "none", "mark", "pass", "fail_cpp", "fail_c", "throw_std", "throw_foreign", "print", "clock",
     "alloc", "free", "realloc", "expect_leaks", "ignore_leaks", "ptr_set", "plugin_error",
     "die_signal", "die_exit", "die_abort", "die_stop", "fork_fail", "wait_eintr", "wait_error", "wait_stopped", "wait_exited", "wait_signaled",
-    "plugin_install", "plugin_remove", "other_leak_plugin", "add_failures", "nested_run" };
+    "plugin_install", "plugin_remove", "other_leak_plugin", "add_failures", "nested_run", "detector_off" };
 const char* kindName(int k) { return k >= 0 && k < K_COUNT ? kNames[k] : "none"; }
 int kindFromName(const char* s) { for (int i = 0; i < K_COUNT; i++) if (!strcmp(s, kNames[i])) return i; return K_NONE; }
 
@@ -239,6 +239,9 @@ void generate(uint64_t seed, const Str& profile, Desc& d, bool exceptions) {
                 else { o.kind = K_W_ERR; static const int errs[] = { 10 /*ECHILD*/, 22 /*EINVAL*/, 11 /*EAGAIN*/, 1 }; o.a = errs[faults.below(4)]; }
                 T.ops.push_back(o);
             }
+        }
+        if (f.leaks && !f.procReal && faults.chance(1, 10)) {      // the detector is switched off right before the statement that makes the test fail: the switch-on that would have followed is never reached
+            for (size_t i = 0; i < T.ops.size(); i++) if (isTerminating(T.ops[i].kind)) { Op o; o.kind = K_DETECTOR_OFF; o.phase = T.ops[i].phase; o.d = ++opLine; T.ops.insert(T.ops.begin() + (long)i, o); break; }
         }
         if (f.overflowPtr && world.chance(1, 12)) {           // push one test over the 32-entry table
             int ph = (int)world.below(3); int n = (int)world.range((int)MAX_SET - 4, (int)MAX_SET + 8);      // around the library's own limit
